@@ -41,7 +41,7 @@ func canonKey(v ssa.Value, depth int) string {
 				return "8" + g.Name()
 			}
 			if f := loadedField(x); f != nil {
-				return "3." + f.Name()
+				return "3." + pinFieldName(f)
 			}
 			return "3*" + canonKey(x.X, depth+1)
 		}
@@ -53,7 +53,7 @@ func canonKey(v ssa.Value, depth int) string {
 	case *ssa.Call:
 		name := "call"
 		if callee := x.Call.StaticCallee(); callee != nil {
-			name = callee.Name()
+			name = pinName(callee)
 		} else if b, ok := x.Call.Value.(*ssa.Builtin); ok {
 			name = b.Name()
 		} else if x.Call.IsInvoke() {
